@@ -2,7 +2,7 @@
     noclobber; here-documents byte-exact.
     Only pinned statements, [exact], and [Print Assumptions]. *)
 From BV Require Import Base.Prelude Redir.FdTable Redir.Apply Redir.Spec Redir.Prog Redir.Interp Redir.SpecInterp
-  Redir.Proofs Redir.ProgProofs Redir.HereDoc Redir.HereProofs Redir.GenTie gen.C10Defaults.
+  Redir.Proofs Redir.ProgProofs Redir.HereDoc Redir.HereProofs Redir.HereExpand Redir.GenTie gen.C10Defaults.
 
 (** For every redirection list, every noclobber setting, every world and every layered table
     (per-command layer L over the shell's persistent table P) whose flat view is T: applying the
@@ -188,6 +188,40 @@ Theorem c10_tables_match_source :
   (forall op b, In (op, b) c10_here_ops_parser <-> In (op, b) c10_here_ops) /\
   TAB = c10_strip_char /\
   (forall c, is_quoting_char c = existsb (N.eqb c) c10_quoting_chars) /\
-  (forall tok, requires_expansion tok = negb (existsb (fun c => existsb (N.eqb c) c10_requires_expansion_chars) tok)).
+  (forall tok, requires_expansion tok = negb (existsb (fun c => existsb (N.eqb c) c10_requires_expansion_chars) tok)) /\
+  heredoc_triggers = c10_heredoc_triggers.
 Proof. exact tables_match_source. Qed.
 Print Assumptions c10_tables_match_source.
+
+(** Processing of a here-document body under an unquoted delimiter (text, backslashes, $name, ${name}):
+    outside the open class (an unquoted backslash-newline in the body) the model of brush - the
+    "nothing to expand" shortcut over the trigger set of the source, then the piece-wise expansion -
+    equals bash's rules: backslash before one of backslash, dollar, backquote is removed, any other
+    backslash stays, parameters are replaced, quotes are ordinary characters. *)
+Theorem c10_heredoc_body_processing_outside_known : forall e body,
+  has_bsnl body = false -> code_expand heredoc_triggers e body = spec_expand e body.
+Proof. exact heredoc_body_processing_outside_known. Qed.
+Print Assumptions c10_heredoc_body_processing_outside_known.
+
+Theorem c10_heredoc_shortcut_sound : forall e body,
+  existsb (fun c => existsb (N.eqb c) heredoc_triggers) body = false ->
+  hexpand true e (S (length body)) body = body.
+Proof. exact shortcut_sound. Qed.
+Print Assumptions c10_heredoc_shortcut_sound.
+
+Theorem c10_quoted_delimiter_body_verbatim : forall tr e strip tok raw,
+  has_quoting tok = true ->
+  code_doc tr e strip tok raw = doc_lines strip raw /\ spec_doc_text e strip tok raw = doc_lines strip raw.
+Proof. exact quoted_delimiter_body_verbatim. Qed.
+Print Assumptions c10_quoted_delimiter_body_verbatim.
+
+Theorem c10_heredoc_backslash_rules :
+  spec_expand [([120]%N, [86]%N)] [92;92; 32; 92;36;120; 32; 92;96; 32; 92;97; 32; 92;34; 32; 36;120; 32; 36;123;120;125; 32; 39;36;120;39]%N
+  = [92; 32; 36;120; 32; 96; 32; 92;97; 32; 92;34; 32; 86; 32; 86; 32; 39;86;39]%N.
+Proof. exact backslash_rules. Qed.
+
+(** regression example: a shortcut that ignores backslashes (trigger set without the backslash) is wrong *)
+Theorem c10_regress_backslash_only_body :
+  code_expand heredoc_triggers [] [67;58;92;92;100]%N = [67;58;92;100]%N /\
+  code_expand [DOLLAR; BQ] [] [67;58;92;92;100]%N <> spec_expand [] [67;58;92;92;100]%N.
+Proof. exact backslash_only_body_is_processed. Qed.
